@@ -93,10 +93,8 @@ func TestVerifC13UDH(t *testing.T) {
 	c.Rule("udh: pairs of 192-byte private strings (uniform, forced even/odd, 0, 1, 2, 3, all-ff, ff..fe, p, p+-1, p-2, top bit, < 2^32, p/2, 1-4 set bits) through GenerateKey(reader) (plain and one-byte reader); oracle: public key and secret are 192 bytes, public key is X or p-X for X = 2^(priv with low bit cleared), and Handshake(a, B') == Handshake(b, A') == 2^(ab) mod p (math/big reference) for B' in {key object of b, bytes b sent, p - those bytes} and likewise A'; non-trivial = extreme-valued key involved or the two parties sent different kinds of representative; fingerprint = both private strings")
 	c.Assume("math/big modular exponentiation is trusted (shared by implementation and reference); the reference is anchored on the obfsproxy known-answer vector")
 	c.Floor("udh-extreme/udh", 0.30)
-	c.Floor("udh-sent:X,X/udh", 0.08)
-	c.Floor("udh-sent:X,p-X/udh", 0.08)
-	c.Floor("udh-sent:p-X,X/udh", 0.08)
-	c.Floor("udh-sent:p-X,p-X/udh", 0.08)
+	// (no floors on which representative the implementation chose to send: that is
+	// its own coin; all four combinations are exercised through SetBytes anyway)
 	rapid.Check(t, func(rt *rapid.T) {
 		privA, kindA := vfDrawPriv(rt, "a")
 		privB, kindB := vfDrawPriv(rt, "b")
